@@ -32,23 +32,29 @@ MANIFEST = dict(
          "access, get and first return the tree unchanged (C04_pure_partial), get and first return normally unless the model "
          "itself gives OutOfFuel/Unsupported (C04_get_total_partial), and item access raises only "
          "KeyError/IndexError/ValueError/TypeError/SyntaxError, nothing at all for a '?' path (C04_getitem_errclass_partial). "
-         "(3) Full-strength statements kept visible and refuted on the pinned tree: C04_get_total_stmt, C04_pure_stmt, with "
-         "counter-example theorems for a new() step (C04_new_writes_cex, C04_new_keyerror_cex = known finding C04-a) and for a "
-         "dict key literally named '*' (C04_star_key_diverges_cex: get('*/x') runs out of fuel for every fuel; the implementation "
-         "raises RecursionError = finding C04-d). "
-         "(4) Termination, proved (Proofs/XPathTerm*.lean, Model/XPathFuel.lean): for every string without 'new()' and every "
+         "(2b) After fix C04-a (the new() step of _find writes nothing and raises no KeyError; the model follows the patched "
+         "code) the safety predicate of the proofs lost its clause about 'new()', the always-true predicate is an instance, and "
+         "the same facts hold WITHOUT Safe/SafeTree, for every path text and every tree: C04_pure (= the full purity statement "
+         "C04_pure_stmt, proved), C04_pure_all (item access, get, first), C04_findD_pure, C04_get_total_any_partial, "
+         "C04_getitem_errclass_any_partial; the former counter-examples are positive instances (C04_new_no_write, "
+         "C04_new_root_is_miss). "
+         "(3) Full-strength statement kept visible and refuted: C04_get_total_stmt, by a dict key literally named '*' "
+         "(C04_star_key_diverges_cex: get('*/x') runs out of fuel for every fuel; the implementation raises RecursionError = "
+         "finding C04-d). "
+         "(4) Termination, proved (Proofs/XPathTerm*.lean, Model/XPathFuel.lean): for EVERY string and every "
          "tree whose dict keys are plain names (PlainTree: no '/ [ ] * ? = ~', quotes or blanks, not '..'), the search ends - "
          "with fuel >= termFuel t s neither get nor item access nor first answers OutOfFuel (C04_fuel_bound, hence "
          "C04_fuel_enough = the former C04_fuel_enough_stmt). termFuel is an explicit bound computed from the parse of the "
          "tokens, the height H and the width W of the tree: a re-resolution of the 'found' text costs <= (W+4)*H + 2*pieces + 1 "
          "(the text consists of '/key' and '[i]' pieces only and never triggers '..', '*', a condition or text() again: "
          "TermFound, term_plain), every step that consumes no token goes one level down (recursion on the height: termZ, "
-         "termN), '..' lengthens 'found' by <= 2*H pieces (termU, termU0); list roots: termPotL. With it the escape clause "
-         "disappears: C04_get_total (get and first return ok, or the model declares Unsupported) and C04_getitem_errclass "
-         "(item access raises only the five classes, or Unsupported), under Safe, SafeTree and PlainTree. The hypothesis on "
-         "keys is necessary (C04_star_key_diverges_cex). "
+         "termN), '..' lengthens 'found' by <= 2*H pieces (termU, termU0), a new() step is one re-resolution and ends the "
+         "search; list roots: termPotL. With it the escape clause disappears and the property holds at full strength on "
+         "plain-key trees: C04_get_total (for ANY string, get and first return ok, or the model declares Unsupported) and "
+         "C04_getitem_errclass (item access raises only the five classes, or Unsupported) under PlainTree alone. The "
+         "hypothesis on keys is necessary (C04_star_key_diverges_cex). "
          "Differential only: inputs the model answers Unsupported for (floats in text() conditions, '%' in quoted "
-         "values, non-ASCII digits) and paths containing 'new()'. "
+         "values, non-ASCII digits). "
          "The bound is fed back: a python port of termFuel is compared with the Lean definition (stream xp.termfuel, paths of "
          "<= 3-4 tokens), the model is run with exactly that fuel and must agree with the implementation - in particular never "
          "answer OutOfFuel (stream xp.getf/bound) - and the depth of nested n0dict._find / n0list._find frames of the "
@@ -57,9 +63,9 @@ MANIFEST = dict(
          "full xpath alphabet and on misses derived from real paths; the statement is executed on the implementation (no "
          "exception from get/first, default iff item access raises, only the five allowed classes from item access, tree "
          "unchanged).",
-    note="known findings: a '[new()]' step inside a lookup (KeyError escapes / a scalar is rewritten into a list); a dict key "
-         "named '*' (or '..' below a '*' step) makes get('*/x') recurse until RecursionError (trees of the harness have "
-         "plain-name keys, so the streams do not meet it).",
+    note="known finding: a dict key named '*' (or '..' below a '*' step) makes get('*/x') recurse until RecursionError (trees "
+         "of the harness have plain-name keys, so the streams do not meet it). Paths with a '[new()]' step are generated and "
+         "checked like all others since fix C04-a.",
     design_ref="5/C04",
 )
 
@@ -77,9 +83,10 @@ def derived_hit(rng, tree):
     """a path that resolves, possibly through a fan-out / predicate with a single match"""
     poss = [p for p, v in X.positions(tree) if p]
     if not poss:
-        return "zz"
+        return "zz", None
     p = rng.choice(poss)
     xp = X.render(rng, tree, p)
+    exact = list(p)
     if rng.random() < 0.5:
         # replace one index step by [*]
         import re
@@ -87,7 +94,8 @@ def derived_hit(rng, tree):
         if idx:
             m = rng.choice(idx)
             xp = xp[: m.start()] + "[*]" + xp[m.end():]
-    return xp
+            exact = None
+    return xp, exact
 
 
 def derived_pred_hit(rng, tree):
@@ -130,8 +138,7 @@ def derived_miss(rng, tree):
 
 
 def in_known(c, detail=None):
-    if "new()" in c["xp"].replace(" ", "").lower():
-        return "C04-a"
+    # C04-a (a new() step inside a lookup) is repaired: no open class is left for generated cases
     return None
 
 
@@ -146,6 +153,8 @@ def check_lookup(c):
         return {"item_access_raised": item[1]}
     if c.get("expect_hit") and item[0] == "err":
         return {"path_resolves_but_item_access_raised": item[1]}
+    if c.get("hit_pos") is not None and item[1] is not X.get_at(o, c["hit_pos"]):
+        return {"path_resolves_to_another_value": repr(item[1])[:200], "want": repr(X.get_at(o, c["hit_pos"]))[:200]}
     if xp.startswith("?") and item[0] == "err":
         return {"qmark_item_access_raised": item[1]}
     for d in ("DFLT", None):
@@ -257,8 +266,8 @@ def term_fuel(tree, xp):
     @functools.lru_cache(maxsize=None)
     def Z(j, k, h, g):
         if h == 0:
-            return (W + 4) + pot(j, k, 0, g + 1)
-        return max((W + 4) + pot(j, k, h, g + 1), (W + 4) + Z(j, k, h - 1, g + 1), 1 + Z(j, k + 1, h - 1, g + 1))
+            return (W + 4) + max(pot(j, k, 0, g + 1), R(g))
+        return max((W + 4) + max(pot(j, k, h, g + 1), R(g)), (W + 4) + Z(j, k, h - 1, g + 1), 1 + Z(j, k + 1, h - 1, g + 1))
 
     @functools.lru_cache(maxsize=None)
     def N(j, k, h, g):
@@ -318,9 +327,9 @@ class FindDepth:
 
 
 def safe_case(c):
-    """inside the hypotheses of C04_fuel_bound: no 'new()' in the path (keys of the harness's trees are plain names);
+    """inside the hypotheses of C04_fuel_bound (any path text; keys of the harness's trees are plain names);
     '%' is outside the model of split_name_index (unquote)"""
-    return "new()" not in c["xp"] and "%" not in c["xp"]
+    return "%" not in c["xp"]
 
 
 def check_depth(c):
@@ -348,6 +357,8 @@ def checker_of(evaluator):
 
 
 def shrink_failure(evaluator, case):
+    if case.get("expect_hit"):
+        return case  # the path was derived from this very tree: a smaller tree would fail for another reason
     chk = checker_of(evaluator)
     xp0 = case.get("xp")
 
@@ -381,8 +392,15 @@ def run(ctx):
         mode = rng.choice(["n0", "wrap"])
         for _ in range(4):
             r = rng.random()
-            xp = soup(rng) if r < 0.45 else (derived_miss(rng, t) if r < 0.8 else derived_hit(rng, t))
-            cases.append({"tree": t, "mode": mode, "xp": xp})
+            if r < 0.8:
+                xp = soup(rng) if r < 0.45 else derived_miss(rng, t)
+                cases.append({"tree": t, "mode": mode, "xp": xp})
+            else:
+                xp, exact = derived_hit(rng, t)
+                cases.append({"tree": t, "mode": mode, "xp": xp})
+                if exact is not None:
+                    # a spelling of a real position: the lookup returns that very node
+                    cases[-1].update(expect_hit=True, hit_pos=exact)
         ph = derived_pred_hit(rng, t) if isinstance(t, dict) else None
         if ph:
             cases.append({"tree": t, "mode": mode, "xp": ph, "expect_hit": True})
@@ -425,8 +443,25 @@ def run(ctx):
         impl_get,
         in_known=lambda c: in_known(c),
     )
+    # a new() step put on nodes that exist (own random stream and own streams: the cases above stay what they were).
+    # Since fix C04-a such a lookup is a miss that writes nothing; before, it converted a single value into a list.
+    rng = ctx.rng("new-steps")
+    ncases = []
+    for _ in range(ctx.budget(150, 4000)):
+        t = X.gen_plain(rng, rng.choice([1, 2, 3]), rng.choice("dddl"))
+        poss = [p for p, _ in X.positions(t) if p]
+        base = X.render(rng, t, rng.choice(poss)) if poss and rng.random() < 0.9 else ""
+        xp = rng.choice(["", "?"]) + base + "[new()]" + rng.choice(["", "", "/x", "[0]", "/..", "[new()]", "/*"])
+        ncases.append({"tree": t, "mode": rng.choice(["n0", "wrap"]), "xp": xp, "kind": rng.choice("gif"), "d": rng.choice([None, "D", 0])})
+    ctx.evaluate("lookup/new-step", ncases, check_lookup, in_known=in_known)
+    ctx.correspond(
+        "xp.get/new-step",
+        ncases,
+        lambda c: "xp.get %s %s %s %s" % (c["kind"], enc_str(c["xp"]), enc_val(c["d"]), enc_val(X.convert(c["tree"], c["mode"]))),
+        impl_get,
+    )
     # ---- termination: the proven fuel bound (C04_fuel_bound) fed back into the check
-    safe = [c for c in lk if safe_case(c)]
+    safe = [c for c in lk + ncases if safe_case(c)]
     rngt = ctx.rng("term")
     nb = ctx.budget(400, 6000)
     sample = safe if len(safe) <= nb else rngt.sample(safe, nb)
